@@ -23,7 +23,10 @@ env.setup()
 from .core import Collector, exception_origin_in_repo, short_exc, jsonable, digest  # noqa: E402
 
 VERIF = env.VERIF
-EVIDENCE_DIR = os.path.join(VERIF, "evidence")
+# evidence under /verif/evidence always describes /repo itself; a run against another tree
+# (BATCHIE_REPO=<scratch copy>, used by tools/trymut.py and tools/seedmatrix.py) keeps its
+# evidence inside that scratch tree
+EVIDENCE_DIR = os.path.join(VERIF, "evidence") if env.REPO == "/repo" else os.path.join(env.REPO, ".verif-evidence")
 REPLAY_DIR = os.path.join(VERIF, "replays")
 KNOWN_FILE = os.path.join(VERIF, "known_findings.json")
 SCHEMA = "/root/.vp/EVIDENCE.schema.json"
